@@ -21,7 +21,7 @@ import (
 // middle of a streamed message, or in the first frame) and is closed; then two fresh connections
 // B and C write two messages each, alternately. Pools are LIFO stacks here, so whatever X returned
 // to them - once or twice - is exactly what B and C pick up.
-func c02PoolWireSetup(k connCfg, fail string) func(c *fw.Ctx, name string) explore.Setup {
+func c02PoolWireSetup(k connCfg, fail, prop string) func(c *fw.Ctx, name string) explore.Setup {
 	return func(c *fw.Ctx, name string) explore.Setup {
 		return func(w *vs.World) func(bool) {
 			vsync.PoolLogging = true
@@ -63,17 +63,17 @@ func c02PoolWireSetup(k connCfg, fail string) func(c *fw.Ctx, name string) explo
 				}
 				role := k.String()
 				if w.Panic != "" {
-					violate(c, w, name, "C02/panic/poolwire/"+role, w.Panic)
+					violate(c, w, name, prop+"/panic/poolwire/"+role, w.Panic)
 					return
 				}
 				if w.Deadlock || w.HorizonHit {
-					violate(c, w, name, "C02/no-termination/poolwire/"+role, fmt.Sprintf("tasks %v never return", stuckTasks(w)))
+					violate(c, w, name, prop+"/no-termination/poolwire/"+role, fmt.Sprintf("tasks %v never return", stuckTasks(w)))
 					return
 				}
 				c.OutcomeStr(fmt.Sprintf("%s|errs=%v|b=%d|c=%d", name, errs, len(pb.Out), len(pc.Out)))
 				for i, err := range errs {
 					if err != nil {
-						violate(c, w, name, "C02/write-fails-on-fresh-connection/poolwire/"+role, fmt.Sprintf("write %d on a fresh connection with a healthy transport failed (%v) after another connection had failed a write and was closed", i, err))
+						violate(c, w, name, prop+"/write-fails-on-fresh-connection/poolwire/"+role, fmt.Sprintf("write %d on a fresh connection with a healthy transport failed (%v) after another connection had failed a write and was closed", i, err))
 						return
 					}
 				}
@@ -83,7 +83,7 @@ func c02PoolWireSetup(k connCfg, fail string) func(c *fw.Ctx, name string) explo
 				}{{'B', pb}, {'C', pc}} {
 					res := frame.Validate(t.p.Out, frame.StreamRules{SenderIsClient: k.Client, Deflate: k.Flate})
 					for _, v := range res.Violations {
-						violate(c, w, name, "C02/malformed-stream/poolwire/"+role, fmt.Sprintf("connection %c wrote two messages; its wire is not a well-formed stream (%v): %s", t.tag, v, describeFrames(connFrames(t.p.Out))))
+						violate(c, w, name, prop+"/malformed-stream/poolwire/"+role, fmt.Sprintf("connection %c wrote two messages; its wire is not a well-formed stream (%v): %s", t.tag, v, describeFrames(connFrames(t.p.Out))))
 						return
 					}
 					inf := &deflate.Inflater{NoContextTakeover: k.writerNoTakeover()}
@@ -93,7 +93,7 @@ func c02PoolWireSetup(k connCfg, fail string) func(c *fw.Ctx, name string) explo
 						if m.Compressed {
 							var err error
 							if pl, err = inf.Message(m.Payload); err != nil {
-								violate(c, w, name, "C02/does-not-inflate/poolwire/"+role, fmt.Sprintf("a message of connection %c does not inflate under the negotiated parameters (%v): %s", t.tag, err, describeFrames(connFrames(t.p.Out))))
+								violate(c, w, name, prop+"/does-not-inflate/poolwire/"+role, fmt.Sprintf("a message of connection %c does not inflate under the negotiated parameters (%v): %s", t.tag, err, describeFrames(connFrames(t.p.Out))))
 								return
 							}
 						}
@@ -104,7 +104,7 @@ func c02PoolWireSetup(k connCfg, fail string) func(c *fw.Ctx, name string) explo
 						for _, g := range got {
 							lens = append(lens, len(g))
 						}
-						violate(c, w, name, "C02/messages-differ/poolwire/"+role, fmt.Sprintf("connection %c wrote messages of 300 and 301 bytes of %q; an independent decoder reconstructs %d message(s) of lengths %v: %s", t.tag, t.tag, len(got), lens, describeFrames(connFrames(t.p.Out))))
+						violate(c, w, name, prop+"/messages-differ/poolwire/"+role, fmt.Sprintf("connection %c wrote messages of 300 and 301 bytes of %q; an independent decoder reconstructs %d message(s) of lengths %v: %s", t.tag, t.tag, len(got), lens, describeFrames(connFrames(t.p.Out))))
 						return
 					}
 				}
@@ -113,19 +113,32 @@ func c02PoolWireSetup(k connCfg, fail string) func(c *fw.Ctx, name string) explo
 	}
 }
 
-func c02PoolWireScenarios(tier string) []scenario {
+func c02PoolWireScenarios(tier string) []scenario { return poolWireScenariosFor("C02")(tier) }
+
+// poolWireScenariosFor: the same history judged under another property's clause on what the
+// peers of B and C receive (C01: the messages written arrive byte-identical; C05, C07: two
+// connections never share a compressor; C14: the peer decodes everything under the negotiated
+// parameters; C19 writes go through wsjson in its own harness).
+func poolWireScenariosFor(prop string) func(tier string) []scenario {
+	return func(tier string) []scenario { return poolWireScenarios(prop) }
+}
+
+func poolWireScenarios(prop string) []scenario {
 	var scs []scenario
 	for _, k := range []connCfg{{Client: false, Flate: true, Thr: 1}, {Client: true, Flate: true, Thr: 1}, {Client: false, Flate: true, Thr: 1, CNCT: true, SNCT: true}, {Client: true, Flate: true, Thr: 1, CNCT: true, SNCT: true}, {Client: true}} {
 		for _, f := range []string{"flush", "stream", "first-frame", "none"} {
-			scs = append(scs, scenario{Name: "poolwire/" + f + "/" + k.String(), Cfg: explore.Config{P: 0, Horizon: 60e9}, Setup: c02PoolWireSetup(k, f), Group: "poolwire/" + k.String()})
+			scs = append(scs, scenario{Name: "poolwire/" + f + "/" + k.String(), Cfg: explore.Config{P: 0, Horizon: 60e9}, Setup: c02PoolWireSetup(k, f, prop), Group: "poolwire/" + k.String()})
 		}
 	}
 	return scs
 }
 
 func init() {
-	fw.Register(fw.Part{Prop: "C02", Name: "s.poolwire",
-		Units:  func(tier string) []fw.Unit { return scenarioUnits(c02PoolWireScenarios(tier)) },
-		Replay: replayFn(c02PoolWireScenarios),
-	})
+	for _, prop := range []string{"C01", "C02", "C05", "C07", "C14"} {
+		scs := poolWireScenariosFor(prop)
+		fw.Register(fw.Part{Prop: prop, Name: "s.poolwire",
+			Units:  func(tier string) []fw.Unit { return scenarioUnits(scs(tier)) },
+			Replay: replayFn(scs),
+		})
+	}
 }
